@@ -99,25 +99,14 @@ theorem cfi_code_delta_exact (prev off factor d : Nat) (h : factoredCodeDelta pr
 
 /-! ## line programs: `DW_LNE_set_address` inside a sequence, tombstones -/
 
-/-- no dangling rows: a `DW_LNE_end_sequence` that the reader skips as part of a tombstone (finding
-C04-1: its row is swallowed) does not follow rows the reader already reported for that sequence.
-(Whole sequences that are tombstoned, and tombstoned stretches ended by a valid address, satisfy
-this; `opn` = a row was reported in the current sequence.) -/
-def NoDangling (T : Nat) : (addr : Nat) → (tomb opn : Bool) → List Ins → Prop
-  | _, _, _, [] => True
-  | addr, _, opn, .setAddress a :: is =>
-      if isTomb T addr a then NoDangling T addr true opn is else NoDangling T a false opn is
-  | addr, tomb, opn, .advance d :: is => NoDangling T (if tomb then addr else addr + d) tomb opn is
-  | addr, tomb, opn, .row :: is => NoDangling T addr tomb (if tomb then opn else true) is
-  | _, tomb, opn, .endSeq :: is => (tomb = true → opn = false) ∧ NoDangling T 0 false false is
-
-/-- what relates the reader on the source program (`addr`, `tomb`), the converter (`rel`, `fa`,
-`tomb`, `p`), the writer (`prev`) and the reader on the written program (`cur`, not tombstoned) -/
+/-- what relates the reader on the source program (`addr`, `tomb`, `opn`), the converter (`rel`,
+`fa`, `tomb`, `p`, `opn`), the writer (`prev`) and the reader on the written program (`cur`, not
+tombstoned, same `opn`) -/
 structure LInv (T rel fa : Nat) (tomb : Bool) (p : Option Nat) (prev cur addr : Nat) (opn : Bool) : Prop where
   live : tomb = false → addr = fa + rel
   frozen : tomb = true → addr = fa
-  none_ : p = none → tomb = false → prev ≤ rel ∧ cur + (rel - prev) = addr
-  some_ : ∀ a, p = some a → cur ≤ a ∧ a < T ∧ (tomb = false → fa = a)
+  none_ : p = none → prev ≤ rel ∧ cur + (rel - prev) = addr
+  some_ : ∀ a, p = some a → cur ≤ a ∧ a < T ∧ addr = a + rel
   le : cur ≤ addr
   closed : opn = false → cur = 0 ∧ prev = 0
 
@@ -127,127 +116,124 @@ theorem isTomb_false {T addr a : Nat} (h : isTomb T addr a = false) : addr ≤ a
 theorem isTomb_of {T cur a : Nat} (h1 : cur ≤ a) (h2 : a < T) : isTomb T cur a = false := by
   simp [isTomb]; omega
 
+
 theorem line_addresses_aux (T : Nat) (is : List Ins) :
     ∀ (rel fa : Nat) (tomb : Bool) (p : Option Nat) (prev cur addr : Nat) (opn : Bool),
       LInv T rel fa tomb p prev cur addr opn →
-      NoDangling T addr tomb opn is →
-      readRows T cur false (emit prev (convert T rel fa tomb p is)) = readRows T addr tomb is := by
+      readRows T cur false opn (emit prev (convert T rel fa tomb p opn is)) = readRows T addr tomb opn is := by
+  have fresh : LInv T 0 0 false none 0 0 0 false :=
+    ⟨by simp, by simp, by simp, by simp, by omega, by simp⟩
   induction is with
-  | nil => intro rel fa tomb p prev cur addr opn _ _; simp [convert, emit, readRows]
+  | nil => intro rel fa tomb p prev cur addr opn _; simp [convert, emit, readRows]
   | cons i is ih =>
-    intro rel fa tomb p prev cur addr opn inv hnd
+    intro rel fa tomb p prev cur addr opn inv
     cases i with
     | setAddress a =>
       have hfa : (if tomb then fa else fa + rel) = addr := by
         cases tomb
         · simp [inv.live rfl]
         · simp [inv.frozen rfl]
-      simp only [convert, readRows, NoDangling, hfa] at hnd ⊢
+      simp only [convert, readRows, hfa]
       cases ht : isTomb T addr a with
       | true =>
-        simp only [ht, if_true] at hnd ⊢
-        refine ih 0 addr true p prev cur addr opn ?_ hnd
-        exact ⟨by simp, by simp, by simp, fun b hb => by have := inv.some_ b hb; simp; omega,
-          inv.le, inv.closed⟩
+        simp only [if_true]
+        refine ih rel addr true p prev cur addr opn ?_
+        exact ⟨by simp, by simp, inv.none_, inv.some_, inv.le, inv.closed⟩
       | false =>
-        simp only [ht] at hnd ⊢
+        simp only [Bool.false_eq_true, if_false]
         have ⟨h1, h2⟩ := isTomb_false ht
         have := inv.le
-        refine ih 0 a false (some a) prev cur a opn ?_ hnd
-        exact ⟨by simp, by simp, by simp, fun b hb => by simp at hb; subst hb; simp; omega,
+        refine ih 0 a false (some a) prev cur a opn ?_
+        exact ⟨by simp, by simp, by simp, fun b hb => by simp at hb; subst hb; omega,
           by omega, inv.closed⟩
     | advance d =>
-      simp only [convert, readRows, NoDangling] at hnd ⊢
-      refine ih (rel + d) fa tomb p prev cur _ opn ?_ hnd
+      simp only [convert, readRows]
       cases tomb
-      · have h1 := inv.live rfl
+      · simp only [Bool.false_eq_true, if_false]
+        refine ih (rel + d) fa false p prev cur (addr + d) opn ?_
+        have h1 := inv.live rfl
         have hle := inv.le
-        refine ⟨by simp; omega, by simp, ?_, fun b hb => by have := inv.some_ b hb; simpa using this,
-          by simp; omega, inv.closed⟩
-        intro hp _
-        have := inv.none_ hp rfl
-        simp; omega
-      · have h1 := inv.frozen rfl
-        exact ⟨by simp, by simp [h1], by simp, fun b hb => by have := inv.some_ b hb; simpa using this,
-          by simpa using inv.le, inv.closed⟩
+        refine ⟨fun _ => by omega, by simp, ?_, ?_, by omega, inv.closed⟩
+        · intro hp
+          have := inv.none_ hp
+          omega
+        · intro b hb
+          have := inv.some_ b hb
+          omega
+      · simp only [if_true]
+        exact ih rel fa true p prev cur addr opn inv
     | row =>
       cases tomb
       · -- a reported row
         have h1 := inv.live rfl
         cases p with
         | none =>
-          have ⟨h2, h3⟩ := inv.none_ rfl rfl
-          simp only [convert, emit, readRows, NoDangling, Bool.false_eq_true, if_false] at hnd ⊢
-          rw [h3]
-          congr 1
-          refine ih rel fa false none rel addr addr true ?_ hnd
-          exact ⟨fun _ => h1, by simp, fun _ _ => by omega, by simp, by omega, by simp⟩
-        | some a =>
-          have ⟨h2, h3, h4⟩ := inv.some_ a rfl
-          have h4 := h4 rfl
-          simp only [convert, emit, readRows, NoDangling, Bool.false_eq_true, if_false,
-            isTomb_of h2 h3] at hnd ⊢
-          rw [show a + (rel - 0) = addr by omega]
-          congr 1
-          refine ih rel fa false none rel addr addr true ?_ hnd
-          exact ⟨fun _ => h1, by simp, fun _ _ => by omega, by simp, by omega, by simp⟩
-      · -- a skipped row
-        simp only [convert, readRows, NoDangling, if_true] at hnd ⊢
-        exact ih rel fa true p prev cur addr opn inv hnd
-    | endSeq =>
-      simp only [NoDangling] at hnd
-      obtain ⟨hopn, hnd⟩ := hnd
-      have fresh : LInv T 0 0 false none 0 0 0 false :=
-        ⟨by simp, by simp, by simp, by simp, by omega, by simp⟩
-      cases tomb
-      · have h1 := inv.live rfl
-        cases p with
-        | none =>
-          have ⟨h2, h3⟩ := inv.none_ rfl rfl
+          have ⟨h2, h3⟩ := inv.none_ rfl
           simp only [convert, emit, readRows, Bool.false_eq_true, if_false]
           rw [h3]
           congr 1
-          exact ih 0 0 false none 0 0 0 false fresh hnd
+          refine ih rel fa false none rel addr addr true ?_
+          exact ⟨fun _ => h1, by simp, fun _ => by omega, by simp, by omega, by simp⟩
         | some a =>
           have ⟨h2, h3, h4⟩ := inv.some_ a rfl
-          have h4 := h4 rfl
           simp only [convert, emit, readRows, Bool.false_eq_true, if_false, isTomb_of h2 h3]
           rw [show a + (rel - 0) = addr by omega]
           congr 1
-          exact ih 0 0 false none 0 0 0 false fresh hnd
-      · -- the whole (rest of the) sequence is a tombstone: nothing was written for it
-        have ⟨hc, hp⟩ := inv.closed (hopn rfl)
-        subst hc; subst hp
+          refine ih rel fa false none rel addr addr true ?_
+          exact ⟨fun _ => h1, by simp, fun _ => by omega, by simp, by omega, by simp⟩
+      · -- a skipped row
         simp only [convert, readRows, if_true]
-        exact ih 0 0 false none 0 0 0 false fresh hnd
+        exact ih rel fa true p prev cur addr opn inv
+    | endSeq =>
+      by_cases hskip : (tomb && !opn) = true
+      · -- the whole sequence is a tombstone: nothing was written for it
+        have hopn : opn = false := by cases opn <;> simp_all
+        have ⟨hc, hp⟩ := inv.closed hopn
+        subst hc; subst hp
+        simp only [convert, readRows, hskip, if_true]
+        subst hopn
+        exact ih 0 0 false none 0 0 0 false fresh
+      · simp only [convert, readRows, hskip, Bool.false_eq_true, if_false]
+        cases p with
+        | none =>
+          have ⟨h2, h3⟩ := inv.none_ rfl
+          simp only [emit, readRows, Bool.false_and, Bool.false_eq_true, if_false]
+          rw [h3]
+          congr 1
+          exact ih 0 0 false none 0 0 0 false fresh
+        | some a =>
+          have ⟨h2, h3, h4⟩ := inv.some_ a rfl
+          simp only [emit, readRows, Bool.false_and, Bool.false_eq_true, if_false, isTomb_of h2 h3]
+          rw [show a + (rel - 0) = addr by omega]
+          congr 1
+          exact ih 0 0 false none 0 0 0 false fresh
 
-/-- **line rows keep their addresses through conversion**, for every program — any number of
+/-- **line rows keep their addresses through conversion**, for EVERY program — any number of
 sequences, any placement and value of `DW_LNE_set_address` (at the start of a sequence, in the
 middle, several in a row, directly before the end; valid, lower than the current address, or a
-tombstone value), any advances: reading the program written from the converted events yields
-exactly the rows, at exactly the addresses, that reading the source program yields — rows the
-reader skips are not brought back, rows it reports are not lost. (Before the `fix:`es the rows
-after a mid-sequence set_address were converted with one wrong offset, an end address given by
-set_address was dropped, and rows after a lower address reappeared; `harness/corpus/C12.txt` keeps
-such programs.) -/
-theorem line_addresses_preserved (T : Nat) (is : List Ins) (h : NoDangling T 0 false false is) :
-    readRows T 0 false (emit 0 (convert T 0 0 false none is)) = readRows T 0 false is :=
+tombstone value), tombstones that last to the end of their sequence, any advances: reading the
+program written from the converted events yields exactly the rows, at exactly the addresses, that
+reading the source program yields — rows the reader skips are not brought back, rows it reports
+are not lost, every sequence that reported rows is ended where the reader ends it. (Before the
+`fix:`es the rows after a mid-sequence set_address were converted with one wrong offset, an end
+address given by set_address was dropped, rows after a lower address reappeared, and a sequence
+whose tail was tombstoned lost its end — an assertion failure in debug builds;
+`harness/corpus/C12.txt` keeps such programs.) -/
+theorem line_addresses_preserved (T : Nat) (is : List Ins) :
+    readRows T 0 false false (emit 0 (convert T 0 0 false none false is)) = readRows T 0 false false is :=
   line_addresses_aux T is 0 0 false none 0 0 0 false
-    ⟨by simp, by simp, by simp, by simp, by omega, by simp⟩ h
+    ⟨by simp, by simp, by simp, by simp, by omega, by simp⟩
 
-/-- the hypothesis cannot be dropped: rows, then a tombstone that lasts to the end of the sequence,
-then a sequence at a lower address — the reader swallows the first `end_sequence` (C04-1), the
-written program has none there, so the second sequence's address is taken for a tombstone -/
-theorem line_addresses_dangling_counterexample :
+/-- regression: rows, then a tombstone that lasts to the end of the sequence, then a sequence at a
+lower address (before the `fix:` the first sequence had no end row) -/
+theorem line_addresses_tombstoned_tail :
     let is := [Ins.setAddress 0x2000, .row, .advance 8, .setAddress 0x10, .row, .endSeq,
                .setAddress 0x1000, .row, .endSeq]
-    readRows (2 ^ 64 - 2) 0 false (emit 0 (convert (2 ^ 64 - 2) 0 0 false none is))
-      ≠ readRows (2 ^ 64 - 2) 0 false is := by decide
+    readRows (2 ^ 64 - 2) 0 false false is
+      = [(0x2000, false), (0x2008, true), (0x1000, false), (0x1000, true)] := by decide
 
 /-! non-vacuity -/
-example : NoDangling (2 ^ 64 - 2) 0 false false [.setAddress 0x2000, .row, .advance 4, .row, .setAddress 0x10, .row, .setAddress 0x2800, .advance 4, .row, .endSeq, .setAddress (2 ^ 64 - 1), .row, .endSeq] := by
-  simp [NoDangling, isTomb]
-example : readRows (2 ^ 64 - 2) 0 false [.setAddress 0x2000, .row, .advance 4, .row, .setAddress 0x10, .row, .setAddress 0x2800, .advance 4, .row, .endSeq, .setAddress (2 ^ 64 - 1), .row, .endSeq]
+example : readRows (2 ^ 64 - 2) 0 false false [.setAddress 0x2000, .row, .advance 4, .row, .setAddress 0x10, .row, .setAddress 0x2800, .advance 4, .row, .endSeq, .setAddress (2 ^ 64 - 1), .row, .endSeq]
     = [(0x2000, false), (0x2004, false), (0x2804, false), (0x2804, true)] := by decide
 example : dataOffset (-8) 2 = .ok (-16) := by decide
 example : factoredDataOffset (-16) (-8) = .ok 2 := by decide
